@@ -72,16 +72,63 @@ def build_inputs(case: Dict[str, Any]):
             mixins=case.get("mixins"))
         text = "\n\n".join(frs + ops)
         try:
-            if not validate(schema_val, parse(text), rules):
+            doc_ = parse(text)
+            if not validate(schema_val, doc_, rules):
                 cand = (sdl, frs, ops, names, set(sfeats) | set(ofeats), schema_ref)
-                # very large documents (thousands of generated classes) cost tens of seconds each: prefer a smaller one, keep the smallest as fallback
-                if len(text) <= case.get("max_doc_chars", 6000):
+                # very large documents (thousands of generated classes) cost tens of seconds each: prefer a smaller one, keep the smallest as fallback.
+                # Size is measured after inlining every fragment spread: that is what the generator unfolds into classes.
+                size = max(len(text), 4 * expanded_size(doc_, schema_ref))
+                if size <= case.get("max_doc_chars", 6000):
                     return cand
-                if best is None or len(text) < best[0]:
-                    best = (len(text), cand)
+                if best is None or size < best[0]:
+                    best = (size, cand)
         except Exception:  # noqa: BLE001
             continue
-    return best[1] if best else None
+    return best[1] if best and best[0] <= 40 * case.get("max_doc_chars", 6000) else None
+
+
+def expanded_size(doc, schema=None) -> int:
+    """Rough number of class fields the generator will emit: selections after inlining fragment spreads, where the fields shared by all
+    runtime types of an abstract position count once per type-conditioned branch (each branch becomes a class that repeats them)."""
+    from graphql import FieldNode, FragmentDefinitionNode, FragmentSpreadNode, InlineFragmentNode, OperationDefinitionNode, get_named_type, is_abstract_type
+    frags = {d.name.value: d for d in doc.definitions if isinstance(d, FragmentDefinitionNode)}
+
+    def size(selset, t, stack=(), depth=0) -> int:
+        if depth > 40:
+            return 1
+        shared, branches = 0, []
+        for sel in selset.selections:
+            if isinstance(sel, FieldNode):
+                ft = None
+                if schema is not None and t is not None and hasattr(t, "fields") and sel.name.value in t.fields:
+                    ft = get_named_type(t.fields[sel.name.value].type)
+                shared += 1 + (size(sel.selection_set, ft, stack, depth + 1) if sel.selection_set else 0)
+            else:
+                if isinstance(sel, FragmentSpreadNode):
+                    name = sel.name.value
+                    if name in stack or name not in frags:
+                        continue
+                    cond, inner, st = frags[name].type_condition.name.value, frags[name].selection_set, stack + (name,)
+                else:
+                    cond, inner, st = (sel.type_condition.name.value if sel.type_condition else None), sel.selection_set, stack
+                ct = schema.type_map.get(cond) if (schema is not None and cond) else t
+                n = size(inner, ct if ct is not None else t, st, depth + 1)
+                if schema is not None and t is not None and cond and cond != getattr(t, "name", None) and is_abstract_type(t):
+                    branches.append(n)
+                else:
+                    shared += n
+        return shared * (len(branches) + 1) + sum(branches)
+
+    total = 0
+    for d in doc.definitions:
+        if isinstance(d, OperationDefinitionNode):
+            root = None
+            if schema is not None:
+                root = {"query": schema.query_type, "mutation": schema.mutation_type, "subscription": schema.subscription_type}[d.operation.value]
+            total += size(d.selection_set, root)
+        elif isinstance(d, FragmentDefinitionNode):
+            total += size(d.selection_set, schema.type_map.get(d.type_condition.name.value) if schema is not None else None, (d.name.value,))
+    return total
 
 
 def case_features(case, feats: Set[str]) -> List[str]:
